@@ -59,8 +59,15 @@ func (g *Gen) msgUniverse() []types.Type {
 			seen[types.TypeString(t, nil)] = t
 		}
 	}
-	var visit func(f *ssa.Function)
-	visit = func(f *ssa.Function) {
+	// the message types the function under verification can meet: mentioned by it, by the functions of its package
+	// it calls statically (three levels), or by the contracts that were expanded in the previous pass (msgUniSeed)
+	done := map[*ssa.Function]bool{}
+	var visit func(f *ssa.Function, depth int)
+	visit = func(f *ssa.Function, depth int) {
+		if f == nil || done[f] || depth > 3 {
+			return
+		}
+		done[f] = true
 		for _, b := range f.Blocks {
 			for _, ins := range b.Instrs {
 				switch x := ins.(type) {
@@ -69,26 +76,20 @@ func (g *Gen) msgUniverse() []types.Type {
 				case *ssa.MakeInterface:
 					add(x.X.Type())
 				}
-			}
-		}
-		for _, a := range f.AnonFuncs {
-			visit(a)
-		}
-	}
-	for _, m := range g.rootFn.Pkg.Members {
-		switch x := m.(type) {
-		case *ssa.Function:
-			visit(x)
-		case *ssa.Type:
-			for _, T := range []types.Type{x.Type(), types.NewPointer(x.Type())} {
-				ms := g.rootFn.Prog.MethodSets.MethodSet(T)
-				for i := 0; i < ms.Len(); i++ {
-					if f := g.rootFn.Prog.MethodValue(ms.At(i)); f != nil && f.Pkg == g.rootFn.Pkg {
-						visit(f)
+				if cc := callCommonOf(ins); cc != nil {
+					if sc := cc.StaticCallee(); sc != nil && sc.Pkg == g.rootFn.Pkg {
+						visit(sc, depth+1)
 					}
 				}
 			}
 		}
+		for _, a := range f.AnonFuncs {
+			visit(a, depth)
+		}
+	}
+	visit(g.rootFn, 0)
+	for _, T := range g.msgUniSeed {
+		add(T)
 	}
 	var names []string
 	for n := range seen {
